@@ -23,7 +23,7 @@ INT_CONSTS = [
     ("0XAu", "unsigned int"), ("9ull", "unsigned long long int"), ("8Ul", "unsigned long int"), ("10", "int"),
 ]  # fmt: skip
 FLOAT_CONSTS = [
-    ("1.5", "double"), ("2.f", "float"), (".5L", "long double"), ("1e3", "double"), ("0x1p3f", "float"),
+    ("1.5", "double"), ("2.f", "float"), (".5L", "long double"), ("1e3", "double"), ("0x1p3f", "float"), ("08.5", "double"), ("09e1f", "float"), ("0189.L", "long double"),
     ("0x1.8p-2", "double"), ("3E+2F", "float"), ("1.e-1l", "long double"), ("0x.8P1L", "long double"),
 ]  # fmt: skip
 CHAR_CONSTS = [
